@@ -19,7 +19,9 @@ Definition clock := option Z.
 
 (* MonotonicTimestampGenerator::compute_next(last) given the clock reading.  The warning branch
    (threshold test, `last_warning` mutex, tracing::warn!) does not influence the returned value
-   and is not modelled.  `last + 1` is i64 arithmetic: it overflows for last = i64::MAX (panic
+   as long as its own i64 subtraction `last - u_cur` does not overflow, i.e. for
+   u_cur >= last - i64::MAX (a reading that wraps to a very negative i64 - beyond the year
+   294 000 - makes it overflow: panic with overflow checks); it is not modelled.  `last + 1` is i64 arithmetic: it overflows for last = i64::MAX (panic
    with overflow checks, wrap to i64::MIN without) - written here as the wrap. *)
 Definition compute_next (last : Z) (c : clock) : Z :=
   match c with
@@ -134,6 +136,12 @@ Definition choose_ts (stmt_ts gen : option Z) : option Z :=
   match stmt_ts with Some t => Some t | None => gen end.
 Definition gen_consulted (stmt_ts : option Z) : bool :=
   match stmt_ts with Some _ => false | None => true end.
+
+(* the timestamps of all frames of one request: execute_raw_with_consistency / batch_with_consistency
+   compute `timestamp` once; the frame re-sent after an UNPREPARED answer is built from
+   `..execute_frame.parameters`, i.e. carries the same value; the generator is consulted once *)
+Definition frames_ts (stmt_ts gen : option Z) (resends : nat) : list (option Z) :=
+  repeat (choose_ts stmt_ts gen) (S resends).
 
 (* ---- acceptors used by the correspondence check --------------------------------------------
    Observed: per OS thread, the sequence of values returned by next_timestamp, OLDEST FIRST. *)
